@@ -360,6 +360,7 @@ structure OobF (D : Desc) (s : St) (f : Fsm) : Prop where
   first : s.ph f = .flush → s.wst f = 0 → HasNul D s f 0
   loop : s.ph f = .loop → NulAt D s f
   wait : s.waiting f → Entry s f
+  wsle : s.ph f = .flush → s.wst f ≤ 2
 
 /-- the argument text of the command machine ends inside the command region -/
 structure OobA (D : Desc) (s : St) : Prop where
@@ -367,10 +368,10 @@ structure OobA (D : Desc) (s : St) : Prop where
   wargs : s.state = .parseWriteArgs → HasNul D s .cmd s.position
 
 theorem OobF.other {D : Desc} {s : St} {f : Fsm} (h : s.ph f = .other) : OobF D s f :=
-  ⟨by simp [h], by simp [h], by simp [h], by simp [h], fun w => by have := waiting_ph w; simp [h] at this⟩
+  ⟨by simp [h], by simp [h], by simp [h], by simp [h], fun w => by have := waiting_ph w; simp [h] at this, by simp [h]⟩
 
 theorem OobF.ofLoop {D : Desc} {s : St} {f : Fsm} (h : s.ph f = .loop) (hn : NulAt D s f) : OobF D s f :=
-  ⟨by simp [h], by simp [h], by simp [h], fun _ => hn, fun w => by have := waiting_ph w; simp [h] at this⟩
+  ⟨by simp [h], by simp [h], by simp [h], fun _ => hn, fun w => by have := waiting_ph w; simp [h] at this, by simp [h]⟩
 
 /-- what the descriptor must provide (DESIGN.md 2.3): the match-state lanes of all commands fit
 the command region (the `assert` of `cat_init`, for the command half), the result code `ERROR`
@@ -399,18 +400,20 @@ theorem OobStep.of_eq {D : Desc} {f : Fsm} {s t u : St} (h : t.oob = s.oob) (h2 
 theorem startFlush_oobF (D : Desc) (s : St) (f : Fsm) (a : After) (h : HasNul D s f 0) : OobStep D f s (startFlush s f a) := by
   have hb : HasNul D (startFlush s f a) f 0 := h.congr (startFlush_buf s f a)
   cases f
-  · refine ⟨rfl, ⟨?_, ?_, ?_, ?_, ?_⟩⟩
+  · refine ⟨rfl, ⟨?_, ?_, ?_, ?_, ?_, ?_⟩⟩
     · intro _ h2; simp [startFlush, St.wsrc, St.emit] at h2
     · intro _ off h2; simp [startFlush, St.wsrc, St.emit, nlOff] at h2; simp [startFlush, St.pos, St.emit]; subst h2; split <;> omega
     · intro _ _; exact hb
     · intro h2; simp [startFlush, St.ph, CState.ph, St.emit] at h2
     · intro _; exact ⟨by simp [startFlush, St.pos, St.emit], Or.inl ⟨by simp [startFlush, St.wst, St.emit], nlOff s, by unfold nlOff; split <;> omega, by simp [startFlush, St.wsrc, St.emit]⟩⟩
-  · refine ⟨rfl, ⟨?_, ?_, ?_, ?_, ?_⟩⟩
+    · intro _; simp [startFlush, St.wst, St.emit]
+  · refine ⟨rfl, ⟨?_, ?_, ?_, ?_, ?_, ?_⟩⟩
     · intro _ h2; simp [startFlush, St.wsrc, St.emit] at h2
     · intro _ off h2; simp [startFlush, St.wsrc, St.emit, nlOff] at h2; simp [startFlush, St.pos, St.emit]; subst h2; split <;> omega
     · intro _ _; exact hb
     · intro h2; simp [startFlush, St.ph, UState.ph, St.emit] at h2
     · intro _; exact ⟨by simp [startFlush, St.pos, St.emit], Or.inl ⟨by simp [startFlush, St.wst, St.emit], nlOff s, by unfold nlOff; split <;> omega, by simp [startFlush, St.wsrc, St.emit]⟩⟩
+    · intro _; simp [startFlush, St.wst, St.emit]
 
 theorem strncpyC_nul (D : Desc) (s : St) (str : List Byte) (h : str.length < D.cmdCap) :
     getB D (strncpyC D s str) .cmd str.length = 0 := by
@@ -929,7 +932,7 @@ theorem Calm.oobF {D : Desc} {s s' : St} {f : Fsm} (h : Calm s s') (o : OobF D s
   have e1 := h.ph f
   have e2 := h.pos f
   have e3 := h.wsrc f
-  refine ⟨?_, ?_, ?_, ?_, ?_⟩
+  refine ⟨?_, ?_, ?_, ?_, ?_, fun a => by rw [e3.2]; exact o.wsle (e1 ▸ a)⟩
   · intro a b; rw [e2]; exact (o.main (e1 ▸ a) (e3.1 ▸ b)).congr h.b
   · intro a off b; rw [e2]; exact o.nl (e1 ▸ a) off (e3.1 ▸ b)
   · intro a b; exact (o.first (e1 ▸ a) (e3.2 ▸ b)).congr h.b
@@ -1102,7 +1105,8 @@ theorem processIoWrite_oob {D : Desc} (s : St) (i : SvcIn) (hs : s.state = .flus
   have omain := o.main hph
   have onl := o.nl hph
   have ofirst := o.first hph
-  simp only [St.wsrc, St.pos, St.wst] at omain onl ofirst
+  have owsle := o.wsle hph
+  simp only [St.wsrc, St.pos, St.wst] at omain onl ofirst owsle
   unfold processIoWrite writeByte
   simp only
   cases hsrc : s.writeSrc with
@@ -1113,10 +1117,10 @@ theorem processIoWrite_oob {D : Desc} (s : St) (i : SvcIn) (hs : s.state = .flus
     · split
       · rename_i h0
         have h0' : s.writeState = 0 := by simpa using h0
-        refine ⟨rfl, ⟨fun _ _ => ?_, fun _ off h => by simp [St.wsrc] at h, fun _ h => by simp [St.wst] at h, fun h => by simp [St.ph, hs, CState.ph] at h, fun h => by simp [St.waiting, hs] at h⟩⟩
+        refine ⟨rfl, ⟨fun _ _ => ?_, fun _ off h => by simp [St.wsrc] at h, fun _ h => by simp [St.wst] at h, fun h => by simp [St.ph, hs, CState.ph] at h, fun h => by simp [St.waiting, hs] at h, fun _ => by simp only [St.wst, St.emit]; omega⟩⟩
         exact (ofirst h0').congr (by simp)
       · split
-        · refine ⟨rfl, ⟨fun _ h => by simp [St.wsrc] at h, fun _ off h => ?_, fun _ h => by simp [St.wst] at h, fun h => by simp [St.ph, hs, CState.ph] at h, fun h => by simp [St.waiting, hs] at h⟩⟩
+        · refine ⟨rfl, ⟨fun _ h => by simp [St.wsrc] at h, fun _ off h => ?_, fun _ h => by simp [St.wst] at h, fun h => by simp [St.ph, hs, CState.ph] at h, fun h => by simp [St.waiting, hs] at h, fun _ => by simp only [St.wst, St.emit]; omega⟩⟩
           simp only [St.wsrc, WSrc.nl.injEq] at h
           subst h; simp only [St.pos, nlOff]; split <;> omega
         · split
@@ -1129,7 +1133,7 @@ theorem processIoWrite_oob {D : Desc} (s : St) (i : SvcIn) (hs : s.state = .flus
       have h1 := nl_get_ne off s.position hne'
       split
       · exact ⟨rfl, (Calm.emit s _).oobF o⟩
-      · refine ⟨rfl, ⟨fun _ h => by simp [St.wsrc, St.emit, hsrc] at h, fun _ off' h => ?_, fun _ h => ?_, fun h => by simp [St.ph, St.emit, hs, CState.ph] at h, fun h => by simp [St.waiting, St.emit, hs] at h⟩⟩
+      · refine ⟨rfl, ⟨fun _ h => by simp [St.wsrc, St.emit, hsrc] at h, fun _ off' h => ?_, fun _ h => ?_, fun h => by simp [St.ph, St.emit, hs, CState.ph] at h, fun h => by simp [St.waiting, St.emit, hs] at h, fun _ => by simp only [St.wst, St.emit]; omega⟩⟩
         · simp only [St.wsrc, St.emit, hsrc, WSrc.nl.injEq] at h
           subst h; simp only [St.pos, St.emit]; omega
         · simp only [St.wst, St.emit] at h
@@ -1142,10 +1146,10 @@ theorem processIoWrite_oob {D : Desc} (s : St) (i : SvcIn) (hs : s.state = .flus
     · split
       · rename_i h0
         have h0' : s.writeState = 0 := by simpa using h0
-        refine ⟨rfl, ⟨fun _ _ => ?_, fun _ off h => by simp [St.wsrc] at h, fun _ h => by simp [St.wst] at h, fun h => by simp [St.ph, hs, CState.ph] at h, fun h => by simp [St.waiting, hs] at h⟩⟩
+        refine ⟨rfl, ⟨fun _ _ => ?_, fun _ off h => by simp [St.wsrc] at h, fun _ h => by simp [St.wst] at h, fun h => by simp [St.ph, hs, CState.ph] at h, fun h => by simp [St.waiting, hs] at h, fun _ => by simp only [St.wst, St.emit]; omega⟩⟩
         exact (ofirst h0').congr (by simp)
       · split
-        · refine ⟨rfl, ⟨fun _ h => by simp [St.wsrc] at h, fun _ off h => ?_, fun _ h => by simp [St.wst] at h, fun h => by simp [St.ph, hs, CState.ph] at h, fun h => by simp [St.waiting, hs] at h⟩⟩
+        · refine ⟨rfl, ⟨fun _ h => by simp [St.wsrc] at h, fun _ off h => ?_, fun _ h => by simp [St.wst] at h, fun h => by simp [St.ph, hs, CState.ph] at h, fun h => by simp [St.waiting, hs] at h, fun _ => by simp only [St.wst, St.emit]; omega⟩⟩
           simp only [St.wsrc, WSrc.nl.injEq] at h
           subst h; simp only [St.pos, nlOff]; split <;> omega
         · split
@@ -1157,7 +1161,7 @@ theorem processIoWrite_oob {D : Desc} (s : St) (i : SvcIn) (hs : s.state = .flus
       have hne' : getB D s .cmd s.position ≠ 0 := by simpa using hne
       split
       · exact ⟨rfl, (Calm.emit s _).oobF o⟩
-      · refine ⟨rfl, ⟨fun _ _ => ?_, fun _ off' h => by simp [St.wsrc, St.emit, hsrc] at h, fun _ h => ?_, fun h => by simp [St.ph, St.emit, hs, CState.ph] at h, fun h => by simp [St.waiting, St.emit, hs] at h⟩⟩
+      · refine ⟨rfl, ⟨fun _ _ => ?_, fun _ off' h => by simp [St.wsrc, St.emit, hsrc] at h, fun _ h => ?_, fun h => by simp [St.ph, St.emit, hs, CState.ph] at h, fun h => by simp [St.waiting, St.emit, hs] at h, fun _ => by simp only [St.wst, St.emit]; omega⟩⟩
         · simp only [St.pos, St.emit]
           exact (hn.succ hne').congr (by simp [St.emit])
         · simp only [St.wst, St.emit] at h
@@ -1169,7 +1173,8 @@ theorem unsolicitedProcessIoWrite_oob {D : Desc} (s : St) (i : SvcIn) (hs : s.us
   have omain := o.main hph
   have onl := o.nl hph
   have ofirst := o.first hph
-  simp only [St.wsrc, St.pos, St.wst] at omain onl ofirst
+  have owsle := o.wsle hph
+  simp only [St.wsrc, St.pos, St.wst] at omain onl ofirst owsle
   unfold unsolicitedProcessIoWrite writeByte
   simp only
   cases hsrc : s.uwriteSrc with
@@ -1180,10 +1185,10 @@ theorem unsolicitedProcessIoWrite_oob {D : Desc} (s : St) (i : SvcIn) (hs : s.us
     · split
       · rename_i h0
         have h0' : s.uwriteState = 0 := by simpa using h0
-        refine ⟨rfl, ⟨fun _ _ => ?_, fun _ off h => by simp [St.wsrc] at h, fun _ h => by simp [St.wst] at h, fun h => by simp [St.ph, hs, UState.ph] at h, fun h => by simp [St.waiting, hs] at h⟩⟩
+        refine ⟨rfl, ⟨fun _ _ => ?_, fun _ off h => by simp [St.wsrc] at h, fun _ h => by simp [St.wst] at h, fun h => by simp [St.ph, hs, UState.ph] at h, fun h => by simp [St.waiting, hs] at h, fun _ => by simp only [St.wst, St.emit]; omega⟩⟩
         exact (ofirst h0').congr (by simp)
       · split
-        · refine ⟨rfl, ⟨fun _ h => by simp [St.wsrc] at h, fun _ off h => ?_, fun _ h => by simp [St.wst] at h, fun h => by simp [St.ph, hs, UState.ph] at h, fun h => by simp [St.waiting, hs] at h⟩⟩
+        · refine ⟨rfl, ⟨fun _ h => by simp [St.wsrc] at h, fun _ off h => ?_, fun _ h => by simp [St.wst] at h, fun h => by simp [St.ph, hs, UState.ph] at h, fun h => by simp [St.waiting, hs] at h, fun _ => by simp only [St.wst, St.emit]; omega⟩⟩
           simp only [St.wsrc, WSrc.nl.injEq] at h
           subst h; simp only [St.pos, nlOff]; split <;> omega
         · split
@@ -1196,7 +1201,7 @@ theorem unsolicitedProcessIoWrite_oob {D : Desc} (s : St) (i : SvcIn) (hs : s.us
       have h1 := nl_get_ne off s.uposition hne'
       split
       · exact ⟨rfl, (Calm.emit s _).oobF o⟩
-      · refine ⟨rfl, ⟨fun _ h => by simp [St.wsrc, St.emit, hsrc] at h, fun _ off' h => ?_, fun _ h => ?_, fun h => by simp [St.ph, St.emit, hs, UState.ph] at h, fun h => by simp [St.waiting, St.emit, hs] at h⟩⟩
+      · refine ⟨rfl, ⟨fun _ h => by simp [St.wsrc, St.emit, hsrc] at h, fun _ off' h => ?_, fun _ h => ?_, fun h => by simp [St.ph, St.emit, hs, UState.ph] at h, fun h => by simp [St.waiting, St.emit, hs] at h, fun _ => by simp only [St.wst, St.emit]; omega⟩⟩
         · simp only [St.wsrc, St.emit, hsrc, WSrc.nl.injEq] at h
           subst h; simp only [St.pos, St.emit]; omega
         · simp only [St.wst, St.emit] at h
@@ -1209,10 +1214,10 @@ theorem unsolicitedProcessIoWrite_oob {D : Desc} (s : St) (i : SvcIn) (hs : s.us
     · split
       · rename_i h0
         have h0' : s.uwriteState = 0 := by simpa using h0
-        refine ⟨rfl, ⟨fun _ _ => ?_, fun _ off h => by simp [St.wsrc] at h, fun _ h => by simp [St.wst] at h, fun h => by simp [St.ph, hs, UState.ph] at h, fun h => by simp [St.waiting, hs] at h⟩⟩
+        refine ⟨rfl, ⟨fun _ _ => ?_, fun _ off h => by simp [St.wsrc] at h, fun _ h => by simp [St.wst] at h, fun h => by simp [St.ph, hs, UState.ph] at h, fun h => by simp [St.waiting, hs] at h, fun _ => by simp only [St.wst, St.emit]; omega⟩⟩
         exact (ofirst h0').congr (by simp)
       · split
-        · refine ⟨rfl, ⟨fun _ h => by simp [St.wsrc] at h, fun _ off h => ?_, fun _ h => by simp [St.wst] at h, fun h => by simp [St.ph, hs, UState.ph] at h, fun h => by simp [St.waiting, hs] at h⟩⟩
+        · refine ⟨rfl, ⟨fun _ h => by simp [St.wsrc] at h, fun _ off h => ?_, fun _ h => by simp [St.wst] at h, fun h => by simp [St.ph, hs, UState.ph] at h, fun h => by simp [St.waiting, hs] at h, fun _ => by simp only [St.wst, St.emit]; omega⟩⟩
           simp only [St.wsrc, WSrc.nl.injEq] at h
           subst h; simp only [St.pos, nlOff]; split <;> omega
         · split
@@ -1224,7 +1229,7 @@ theorem unsolicitedProcessIoWrite_oob {D : Desc} (s : St) (i : SvcIn) (hs : s.us
       have hne' : getB D s .uns s.uposition ≠ 0 := by simpa using hne
       split
       · exact ⟨rfl, (Calm.emit s _).oobF o⟩
-      · refine ⟨rfl, ⟨fun _ _ => ?_, fun _ off' h => by simp [St.wsrc, St.emit, hsrc] at h, fun _ h => ?_, fun h => by simp [St.ph, St.emit, hs, UState.ph] at h, fun h => by simp [St.waiting, St.emit, hs] at h⟩⟩
+      · refine ⟨rfl, ⟨fun _ _ => ?_, fun _ off' h => by simp [St.wsrc, St.emit, hsrc] at h, fun _ h => ?_, fun h => by simp [St.ph, St.emit, hs, UState.ph] at h, fun h => by simp [St.waiting, St.emit, hs] at h, fun _ => by simp only [St.wst, St.emit]; omega⟩⟩
         · simp only [St.pos, St.emit]
           exact (hn.succ hne').congr (by simp [St.emit])
         · simp only [St.wst, St.emit] at h
@@ -1234,7 +1239,7 @@ theorem unsolicitedProcessIoWrite_oob {D : Desc} (s : St) (i : SvcIn) (hs : s.us
 
 theorem OobF.congr {D : Desc} {s s' : St} {f : Fsm} (hph : s'.ph f = s.ph f) (hsrc : s'.wsrc f = s.wsrc f) (hwst : s'.wst f = s.wst f)
     (hpos : s'.pos f = s.pos f) (hb : SameBuf s s') (hw : s'.waiting f → s.waiting f) (o : OobF D s f) : OobF D s' f := by
-  refine ⟨?_, ?_, ?_, ?_, fun a => ⟨by rw [hpos]; exact (o.wait (hw a)).pos, by rw [hsrc, hwst]; exact (o.wait (hw a)).src⟩⟩
+  refine ⟨?_, ?_, ?_, ?_, fun a => ⟨by rw [hpos]; exact (o.wait (hw a)).pos, by rw [hsrc, hwst]; exact (o.wait (hw a)).src⟩, fun a => by rw [hwst]; exact o.wsle (hph ▸ a)⟩
   · intro a b; rw [hpos]; exact (o.main (hph ▸ a) (hsrc ▸ b)).congr hb
   · intro a off b; rw [hpos]; exact o.nl (hph ▸ a) off (hsrc ▸ b)
   · intro a b; exact (o.first (hph ▸ a) (hwst ▸ b)).congr hb
@@ -1796,7 +1801,7 @@ theorem printCurrentCmdFullName_oob (D : Desc) (s : St) (x : List Byte) (hp : s.
 
 theorem startFlushRaw_oob {D : Desc} (s : St) (a : After) (next : CmdType) (h : HasNul D s .cmd 0) :
     OobStepA D s { startFlushRaw s a with cmdType := next } := by
-  refine ⟨rfl, ⟨?_, ?_, ?_, ?_, ?_⟩, .other (by simp [startFlushRaw, St.emit]) (by simp [startFlushRaw, St.emit])⟩
+  refine ⟨rfl, ⟨?_, ?_, ?_, ?_, ?_, fun _ => by simp [St.wst, startFlushRaw, St.emit]⟩, .other (by simp [startFlushRaw, St.emit]) (by simp [startFlushRaw, St.emit])⟩
   · intro _ _; simp only [St.pos, startFlushRaw, St.emit]; exact h.congr (by simp [startFlushRaw, St.emit])
   · intro _ off h2; simp [St.wsrc, startFlushRaw, St.emit] at h2
   · intro _ h2; simp [St.wst, startFlushRaw, St.emit] at h2
